@@ -784,3 +784,24 @@ Example ex_call_depth :
   call_depth (fun _ i => Nat.eqb i 1) (TNode [TNode [TNode []]; TNode [TNode [TNode []]]]) = 2 /\
   ty_depth (TNode [TNode [TNode []]; TNode [TNode [TNode []]]]) = 4.
 Proof. vm_compute. repeat split; reflexivity. Qed.
+
+(* ------------------------------------------------------------------------------------------ *)
+(** ** the placeholder name handed to format_ident! *)
+Lemma ident_preds_are_xid_present : ident_preds_are_xid = true.
+Proof. vm_compute. reflexivity. Qed.
+
+Lemma transparent_ident_valid xs xc u name : all_ok (transparent_ident_ops xs xc u name) = true.
+Proof.
+  unfold transparent_ident_ops, parser_accepts_name. rewrite ident_preds_are_xid_present.
+  destruct name as [|c r]; [reflexivity|].
+  destruct ((xs c && forallb xc r) || ((c =? u) && match r with [] => false | _ => forallb xc r end)) eqn:E;
+    [|reflexivity].
+  cbn [all_ok forallb op_ok ident_new_ok]. rewrite andb_true_r.
+  apply orb_true_iff in E as [E|E]; apply andb_true_iff in E as [E1 E2].
+  - rewrite E1, E2. reflexivity.
+  - rewrite E1, orb_true_r. destruct r; [discriminate|]. rewrite E2. reflexivity.
+Qed.
+
+Example ex_ident_name :
+  transparent_ident_ops (fun c => Nat.eqb c 120) (fun c => Nat.eqb c 120 || Nat.eqb c 49) 95 [95; 120; 49] = [OUnwrap true].
+Proof. vm_compute. reflexivity. Qed.
